@@ -16,6 +16,8 @@ from props.totals_common import run_trace_spec
 # ---------------------------------------------------------------- concrete world -----------------------------
 R1 = '''# rules one
 big = amount > 40
+ach = field.kind == "ACH"
+field.memo2 = trim(field.nosuchcolumn)
 field.description = regex_replace(field.description, "^APLPAY\\\\s+", "")
 
 [Coffee]
@@ -28,6 +30,10 @@ field: note = "ALFA-Note"
 [Large]
 match: big
 tags: large
+
+[Ach]
+match: ach
+tags: viaach
 
 [Charlie]
 let: z = amount * 2
